@@ -123,7 +123,8 @@ def lean(e):
 # ------------------------------------------------------------------------------------------------
 # second shape: a straight-line function over signed integers with early returns and Option results
 # (helper/formula.rs `translate_part`), plus `const NAME: u32 = <literal>;`
-#   let (a, b) = <tuple parameter>;   if C { return E; }   let x = E;   if C { E } else { E }
+#   block ::= stmt* tail          stmt ::= let (a, b) = <tuple parameter>; | let x = E; | if C { block-that-returns }
+#   tail  ::= E | return E; | if C { block } else { block } | if C { block } else if …        (nested to any depth)
 #   E ::= literals, identifiers, + - < > <= >= == != || && !, `as <type>` (dropped: i64 arithmetic on a
 #   u32 and an i32 cannot overflow, the final `as u32` is applied to a value already checked to be in
 #   1..=max), `Some(E)`, `None`, tuples `(E, E)`, `*x` / `&x` (dropped)
@@ -157,27 +158,49 @@ class P2(P):
             self.eat("as"); ty = self.eat()
             if ty not in ("i64", "u32", "i32", "u64", "usize"): raise ValueError(f"cast to {ty}")
         return e
-    def stmts(self):
-        out = []
-        while True:
-            t = self.peek()
-            if t == "let":
-                self.eat("let")
-                if self.peek() == "(":
-                    self.eat("("); a = self.eat(); self.eat(","); b = self.eat(); self.eat(")"); self.eat("="); src = self.eat(); self.eat(";")
-                    out.append(("unpack", a, b, src))
-                else:
-                    x = self.eat(); self.eat("="); e = self.expr(); self.eat(";"); out.append(("let", x, e))
-            elif t == "if":
-                save = self.i
-                self.eat("if"); c = self.expr(); self.eat("{")
-                if self.peek() == "return":
-                    self.eat("return"); e = self.expr(); self.eat(";"); self.eat("}"); out.append(("ret_if", c, e))
-                else:
-                    a = self.expr(); self.eat("}"); self.eat("else"); self.eat("{"); b = self.expr(); self.eat("}")
-                    out.append(("tail", ("ite", c, a, b))); return out
+    def seq(self):
+        """a block body (up to its `}` / the end) as a decision tree:
+           ("let", x, E, rest) | ("unpack", a, b, src, rest) | ("ite", C, tree, tree) | ("ret", E) | ("val", E)"""
+        t = self.peek()
+        if t == "let":
+            self.eat("let")
+            if self.peek() == "mut": raise ValueError("let mut")
+            if self.peek() == "(":
+                self.eat("("); a = self.eat(); self.eat(","); b = self.eat(); self.eat(")"); self.eat("="); src = self.eat(); self.eat(";")
+                return ("unpack", a, b, src, self.seq())
+            x = self.eat(); self.eat("="); e = self.expr(); self.eat(";")
+            return ("let", x, e, self.seq())
+        if t == "if":
+            return self.if_()
+        if t == "return":
+            self.eat("return"); e = self.expr()
+            if self.peek() == ";": self.eat(";")
+            if self.peek() not in ("}", None): raise ValueError("statements after return")
+            return ("ret", e)
+        if t in ("}", None): raise ValueError("block without a value")
+        e = self.expr()
+        if self.peek() not in ("}", None): raise ValueError(f"unexpected token {self.peek()} after the tail expression")
+        return ("val", e)
+    def if_(self):
+        self.eat("if"); c = self.expr(); self.eat("{"); a = self.seq(); self.eat("}")
+        if self.peek() == "else":
+            self.eat("else")
+            if self.peek() == "if": b = self.if_()
             else:
-                out.append(("tail", self.expr())); return out
+                self.eat("{"); b = self.seq(); self.eat("}")
+            if self.peek() == ";": self.eat(";")
+            if self.peek() not in ("}", None):
+                raise ValueError("statements after if/else")
+            return ("ite", c, a, b)
+        # `if C { … return E; }` followed by the rest of the block: every path of the branch must return
+        if not all_return(a): raise ValueError("if without else whose branch does not return")
+        return ("ite", c, a, self.seq())
+
+def all_return(t):
+    if t[0] == "ret": return True
+    if t[0] == "val": return False
+    if t[0] == "ite": return all_return(t[2]) and all_return(t[3])
+    return all_return(t[-1])
 
 def lean2(e, env):
     k = e[0]
@@ -190,31 +213,37 @@ def lean2(e, env):
     if k == "var":
         if e[1] not in env: raise ValueError(f"unknown identifier {e[1]}")
         return env[e[1]]
-    if k == "ite": return f"(if {lean2(e[1], env)} then {lean2(e[2], env)} else {lean2(e[3], env)})"
     ops = {"rOr": "||", "rAnd": "&&", "rLt": "<", "rGt": ">", "rLe": "≤", "rGe": "≥", "rEq": "==", "rNe": "!=", "rAdd": "+", "rSub": "-"}
     if k in ("rLt", "rGt", "rLe", "rGe"):
         return f"(decide ({lean2(e[1], env)} {ops[k]} {lean2(e[2], env)}))"
     if k in ops: return f"({lean2(e[1], env)} {ops[k]} {lean2(e[2], env)})"
     raise ValueError(f"unknown node {k}")
 
+def lean_tree(t, env, ind, used):
+    sp = "  " * ind
+    k = t[0]
+    if k in ("ret", "val"): return sp + lean2(t[1], env)
+    if k == "unpack":
+        if t[3] != "part": raise ValueError("unpack of " + t[3])
+        env = dict(env); env[t[1]] = "part.1"; env[t[2]] = "part.2"; env["part"] = "part"
+        return lean_tree(t[4], env, ind, used)
+    if k == "let":
+        v = lean2(t[2], env)
+        n = t[1]
+        while n in used: n += "'"
+        used = used | {n}
+        env = dict(env); env[t[1]] = n
+        return f"{sp}let {n} : Int := {v}\n" + lean_tree(t[3], env, ind, used)
+    if k == "ite":
+        return (f"{sp}if {lean2(t[1], env)} then\n" + lean_tree(t[2], env, ind + 1, used) + f"\n{sp}else\n" + lean_tree(t[3], env, ind + 1, used))
+    raise ValueError(k)
+
 def straight_line_def(src, fn, params, header):
     """`fn` of helper/formula.rs in the second shape; `params` maps the scalar parameters to Lean names"""
     body = body_of(src, fn)
-    p = P2(tokenize2(body)); st = p.stmts()
+    p = P2(tokenize2(body)); tree = p.seq()
     if p.peek() is not None: raise ValueError(f"trailing tokens from {p.peek()}")
-    env = dict(params)
-    lines = []
-    for s in st:
-        if s[0] == "unpack":
-            if s[3] != "part": raise ValueError("unpack of " + s[3])
-            env[s[1]] = "part.1"; env[s[2]] = "part.2"; env["part"] = "part"
-        elif s[0] == "ret_if":
-            lines.append(f"if {lean2(s[1], env)} then {lean2(s[2], env)} else")
-        elif s[0] == "let":
-            lines.append(f"let {s[1]} : Int := {lean2(s[2], env)}"); env[s[1]] = s[1]
-        elif s[0] == "tail":
-            lines.append(lean2(s[1], env))
-    return header + "\n  " + "\n  ".join(lines) + "\n"
+    return header + "\n" + lean_tree(tree, dict(params), 1, frozenset(params.values()) | {"part"}) + "\n"
 
 def translate_part_def(src):
     return straight_line_def(src, "translate_part", {"offset_num": "offset_num", "max_num": "max_num"},
@@ -227,9 +256,9 @@ def insert_part_def(src):
             "def insert_part (part : Int × Bool) (root_num offset_num max_num : Int) (is_end : Bool) : Option (Int × Bool) :=")
 
 def const_def(src, name, lean_name, path):
-    m = re.search(r"const\s+" + name + r"\s*:\s*u32\s*=\s*(\d+)\s*;", src)
-    if not m: raise ValueError("const not found")
-    return f"/-- translated from `{path}` const `{name}` -/\ndef {lean_name} : Nat := {m.group(1)}\n"
+    m = re.search(r"const\s+" + name + r"\s*:\s*u32\s*=\s*(\d[\d_]*)(?:u32)?\s*;", src)
+    if not m: raise ValueError("const not found (or not an integer literal)")
+    return f"/-- translated from `{path}` const `{name}` -/\ndef {lean_name} : Nat := {int(m.group(1).replace('_', ''))}\n"
 
 def main():
     defs, extracted, fallbacks = [], [], []
@@ -255,7 +284,7 @@ def main():
         try:
             defs.append((name, f(open(os.path.join(REPO, fsrc_path)).read()))); extracted.append(name)
         except Exception as ex:
-            m = re.search(r"/-- translated from[^\n]*\n(?:[^\n]*\n)*?def " + re.escape(name) + r"\b.*?\n\n", old, re.S)
+            m = re.search(r"/--(?:(?!-/).)*-/\ndef " + re.escape(name) + r"\b.*?\n\n", old, re.S)     # the doc comment in front of THIS definition
             if m:
                 defs.append((name, m.group(0).rstrip("\n") + "\n"))
             fallbacks.append({"function": name, "reason": (type(ex).__name__ + ": " + str(ex))[:120]})
